@@ -39,6 +39,7 @@ fn layout(ch: &mut Chooser) -> cfb::Layout {
         free_sectors: ch.pick("cfb.free", &[0usize, 1]),
         extra_fat_sectors: 0,
         free_mini_sectors: 0,
+        name_garbage: ch.flag("cfb.stale-bytes-after-name-terminator"),
     }
 }
 
